@@ -99,6 +99,14 @@ def gen(rng, tier):
             ids = rng.sample(pool_ids, rng.randint(1, len(pool_ids)))  # in a non-alphabetical order
             if rng.random() < 0.25:
                 ids.insert(rng.randrange(len(ids) + 1), "nosuchID")
+            if k == "ld" and c["from_gts"] and rng.random() < 0.3:
+                # as many unknown IDs as variants of the target haplotype that are not requested
+                tv = {"hapA": ["snpA", "snpC"], "hapB": ["snpB", "snpE"]}.get(c["target"], [])
+                ids = [x for x in ids if x != "nosuchID"]
+                miss = [v for v in tv if v not in ids]
+                ids += [f"nosuchID{i}" for i in range(len(miss))]
+                rng.shuffle(ids)
+                ids = ids or ["snpD"]
             if rng.random() < 0.2:
                 ids.append(ids[0])  # a duplicate
         c["ids"] = ids
@@ -265,6 +273,22 @@ def oracle(case, obs):
         return f"{k}: the CLI output differs from the Python entry point's output for the same parameters: {str(a)[:300]} vs {str(c)[:300]}"
     if a != b:
         return f"{k}: giving IDs/samples in a file is not equivalent to repeating --id/--sample: {str(a)[:300]} vs {str(b)[:300]}"
+    if k == "ld" and case["ids"] is not None:
+        # unknown IDs are ignored, never replaced by others: what is listed is what was requested and exists
+        if case["from_gts"]:
+            listed = [l.split("\t")[2] for l in a if l.split("\t")[0] != "CHR"]
+            known = [f"snp{chr(65+j)}" for j in range(NV)]
+            allowed = set(case["ids"]) | ({case["target"]} if case["target"] in known else set())
+        else:
+            listed = [l.split("\t")[4] for l in a if l.startswith("H\t")]
+            known = [h for h in ["hapA", "hapB", "hapC", "hapD"] if h != case["target"]]
+            allowed = set(case["ids"])
+        extra = [x for x in listed if x not in allowed]
+        if extra:
+            return f"ld listed {extra}, which were not requested (requested {case['ids']}): unknown IDs must be ignored, never replaced by others"
+        lost = [x for x in dict.fromkeys(case["ids"]) if x in known and x not in listed]
+        if lost:
+            return f"ld did not list the requested IDs {lost} (listed {listed})"
     if k == "transform":
         known_h = ["hapA", "hapB", "hapC", "hapD"]
         want = [h for h in known_h if case["ids"] is None or h in case["ids"]]
@@ -274,7 +298,7 @@ def oracle(case, obs):
         ws = [s for s in [f"s{i}" for i in range(NS)] if case["samples"] is None or s in case["samples"]]
         if a["samples"] != ws:
             return f"transform output samples {a['samples']} for requested {case['samples']}"
-        unknown = (case["ids"] and "nosuchID" in case["ids"]) or (case["samples"] and "ghost" in case["samples"])
+        unknown = (case["ids"] and any(x.startswith("nosuchID") for x in case["ids"])) or (case["samples"] and "ghost" in case["samples"])
         if unknown and not obs["reported"]:
             return "unknown IDs / samples were dropped without being reported"
     return None
@@ -284,7 +308,7 @@ def describe(case, obs):
     tags = [case["kind"], "short-opts" if case["short"] else "long-opts"]
     if case["ids"]:
         tags.append("ids")
-        if "nosuchID" in case["ids"]:
+        if any(x.startswith("nosuchID") for x in case["ids"]):
             tags.append("unknown-id")
         if len(set(case["ids"])) < len(case["ids"]):
             tags.append("duplicate-id")
